@@ -228,7 +228,7 @@ def pos_requires(*conds):
 def _shape_family(tier, L):
     """(n_in, n_out, d): number of latent coefficients, observed rows per dimension, dimensions."""
     if L is DenseL:
-        fam = [(2, 1, 1), (2, 2, 1), (1, 1, 2)]
+        fam = [(2, 1, 1), (2, 2, 1), (1, 1, 2), (3, 1, 2)]  # last: n_in != d, both > 1
         if tier == "thorough":
             fam += [(3, 1, 1), (3, 2, 1), (2, 1, 2), (4, 2, 1), (3, 3, 1)]
     else:
